@@ -44,3 +44,21 @@ CLAIMS["C08"] = dict(
     note="Trusted: go/types type-switch arms; ownership analysis treats roaring.New/Clone/And/Or results as fresh and anything loaded from a map or field as stored.",
     technique="static analysis: sibling type-switch agreement, constant-table agreement, interprocedural ownership (freshness) of bitmaps over SSA",
 )
+CLAIMS["C10"] = dict(
+    ref="DESIGN.md §4 C10",
+    text="Decides the structural conditions that keep the two views and the journal in agreement: the forward and reverse halves of AddEdge/RemoveEdge test the same conditions (soft delete marks the active version, hard delete erases every version, active look-ups agree) and the time filter is created <= T < deleted (SIB-views); the live link/unlink operations and their replay arms feed the edge store from the same command positions, the applied timestamp is the journaled one, and compaction re-emits soft-deleted history (CDC-9); GLINK/GUNLINK writer/reader arity and nil props (CDC-1/2/4). As-of query results and vacuum cut-off arithmetic are NOT decided.",
+    note="Trusted: AST condition signatures normalise TargetID/SourceID; SSA data flow from FormatCommand elements / cmd.Args indexes into AddEdge/RemoveEdge arguments.",
+    technique="static analysis: sibling condition-signature agreement (AST) + writer/reader argument-role agreement (SSA data flow)",
+)
+CLAIMS["C11"] = dict(
+    ref="DESIGN.md §4 C11",
+    text="Decides termination-and-depth shape of every traversal: each enqueue is guarded by a not-visited test that marks the node, expansion is cut at depth >= max, depth is clamped (<= 5) and work lists are consumed first-in-first-out so a recorded depth is a true distance (GRD-bfs); FindPath declares a meeting only on the frontier node being expanded and bounds its rounds; traversePath recurses with depth+1 under a constant cap (GRD-path). Shortest-path optimality and completeness in general are NOT decided (algorithm-specific necessary conditions of today's level-synchronous BFS).",
+    note="Trusted: typed AST of the traversal functions; the work list / visited set are recognised by role (a slice appended to inside its consuming loop, a map tested-then-set). A rewrite to a different correct algorithm yields UNDECIDED (check fails with 'anchor lost'), stated in DESIGN.md.",
+    technique="static analysis: guard-dominates-enqueue and worklist-discipline checks over the typed AST",
+)
+CLAIMS["C12"] = dict(
+    ref="DESIGN.md §4 C12",
+    text="Decides that the runtime delete cascade and the VDEL replay repair cover the same edge directions (in and out), that the cascade goroutine is WaitGroup-registered before it starts and unlinks through the journaling VUnlink, that connection hydration unlinks dead targets (SIB-4), and that soft/hard unlink treat the forward and reverse views alike (SIB-views). Settling time and interleaving with re-link are NOT decided.",
+    note="Trusted: constant direction arguments of GetAllRelations; SSA closures of VDelete/VGetConnections.",
+    technique="static analysis: sibling agreement of constant direction sets + must-precede (wg.Add before go) over SSA",
+)
